@@ -19,6 +19,8 @@ oracle: context data deep-equals its snapshot after every render (methods along 
         every built-in filter with container values and container-valued arguments)
 """
 import collections
+import collections.abc
+import types
 import copy
 import inspect
 import itertools
@@ -33,6 +35,7 @@ RULE = ("methods: every public name of list/dict/set/deque of the running interp
         "SandboxedEnvironment of the same process rendering the same template first (plain-first) or between two "
         "immutable renders (immutable-first); distinct = (type, name, args, path, mode); non-trivial = the method mutates per Spec/SbxMutators. filters: every "
         "registered filter x container values x every parameter bound to a container (keyword and positional) "
+        "(values include generators / iterators whose items are context containers, and containers nested in objects) "
         "x {printed, consumed with |list} x {sync, async} x autoescape {off, on}; non-trivial = the filter call returned without error.")
 
 PY_OF = {"TList": list, "TDict": dict, "TSet": set, "TDeque": collections.deque}
@@ -73,6 +76,8 @@ def canon(x):
         return ("dict", tuple((canon(k), canon(v)) for k, v in x.items()))
     if isinstance(x, Box):
         return ("Box", canon(vars(x)))
+    if isinstance(x, (types.GeneratorType, collections.abc.Iterator)) and not isinstance(x, (str, bytes)):
+        return ("iterator",)        # consumed by rendering; its items are compared through their owners
     return (type(x).__name__, repr(x))
 
 
@@ -228,8 +233,17 @@ PATHS = {
     "loop-var": "{%% for f in [c.%(m)s] %%}{{ f(%(a)s) }}{%% endfor %%}",
     "dict-value": "{%% set d = {'f': c.%(m)s} %%}{{ d.f(%(a)s) }}",
     "call-block": "{%% macro w() %%}{{ caller() }}{%% endmacro %%}{%% call w() %%}{{ c.%(m)s(%(a)s) }}{%% endcall %%}",
+    # the container sits three levels down: object -> dict -> object -> container (and list -> dict -> container)
+    "deep-dot": "{{ deep.data.inner.c.%(m)s(%(a)s) }}",
+    "deep-subscript": "{{ deep['data']['inner']['c']['%(m)s'](%(a)s) }}",
+    "deep-mixed": "{{ deep.data['inner'].c['%(m)s'](%(a)s) }}",
+    "deep-list-dict": "{{ rows[1].cell.%(m)s(%(a)s) }}",
+    "deep-loop": "{%% for r in rows %%}{%% for k, v in r.items() %%}{{ v.%(m)s(%(a)s) }}{%% endfor %%}{%% endfor %%}",
+    "deep-map-dotted": "{%% for f in [deep]|map(attribute='data.inner.c.%(m)s') %%}{{ f(%(a)s) }}{%% endfor %%}",
+    "deep-alias": "{%% set x = deep.data.inner %%}{%% set f = x.c.%(m)s %%}{{ f(%(a)s) }}",
 }
 FORMAT_PATHS = {
+    "format-deep": "{{ '{0.data[inner].c.%(m)s}'.format(deep) }}",
     "format-attr": "{{ '{0.%(m)s}'.format(c) }}{{ '{0.inner.%(m)s}'.format(o) }}",
     "format-map": "{{ '{x.%(m)s}'.format_map({'x': c}) }}",
     "format-item": "{{ '{0[%(m)s]}'.format(c) }}",
@@ -259,7 +273,9 @@ def method_data(T, variant, args):
     c = fresh(T, variant)
     inner = fresh(T, variant)
     binner = fresh(T, variant)
-    data = {"c": c, "o": {"inner": inner}, "b": Box(inner=binner)}
+    data = {"c": c, "o": {"inner": inner}, "b": Box(inner=binner),
+            "deep": Box(data={"inner": Box(c=fresh(T, variant))}),
+            "rows": [{"cell": fresh(T, variant)}, {"cell": fresh(T, variant)}]}
     for i, a in enumerate(copy.deepcopy(args)):
         data[f"a{i}"] = a
     return data
@@ -315,14 +331,27 @@ def filter_values():
         "l": [3, 1, 2], "ll": [[2], [3, 4]], "ld": [{"k": [1], "n": 2}, {"k": [5], "n": 1}],
         "d": {"a": 1, "b": [2]}, "s": {1, 2, 3}, "q": collections.deque([3, 1, 2]), "ql": collections.deque([[1], [2]]),
         "lb": [Box(k=[1], n=2), Box(k=[4], n=1)], "ls": ["b", "a"], "st": "ab cd", "n": 2,
+        "nest": Box(data={"rows": [[3, 1], [2]], "by": {"k": [5, 4]}}),
     }
+
+
+def with_generators(data):
+    """generators / iterators whose items ARE containers of the context (the filter receives a lazy iterable; what
+    it does to the items is visible through the containers that stay in the data)"""
+    data["gl"] = (x for x in data["ll"])
+    data["gd"] = (x for x in data["ld"])
+    data["gq"] = iter(data["ql"])
+    data["gn"] = (x for x in data["nest"].data["rows"])
+    data["gv"] = iter(data["d"].values())
+    return data
 
 
 def filter_templates(ctx, filters):
     """yield (filter name, expression) pairs"""
-    vals = ["l", "ll", "ld", "d", "s", "q", "ql", "lb", "ls"]
+    vals = ["l", "ll", "ld", "d", "s", "q", "ql", "lb", "ls", "gl", "gd", "gq", "gn", "nest.data.rows", "nest.data.by.k"]
     conts = ["l", "d", "s", "q", "ll"]
-    subj = ctx.size(["ll", "ld", "st", "q"], ["l", "ll", "ld", "lb", "d", "s", "q", "st", "n"])
+    subj = ctx.size(["ll", "ld", "st", "q", "gl", "nest.data.rows"],
+                    ["l", "ll", "ld", "lb", "d", "s", "q", "st", "n", "gl", "gd", "gq", "gn", "nest.data.rows"])
     for name in sorted(filters):
         f = filters[name]
         for v in vals:
@@ -347,6 +376,11 @@ def filter_templates(ctx, filters):
             pos += 1
     # attribute-taking and variadic filters
     extra = [
+        "gl|map('sort')|list", "gl|map('reverse')|list", "gl|sum(start=l)", "gn|sum(start=l)", "gl|map('join')|list", "gl|first",
+        "gl|map('first')|list", "gd|map(attribute='k')|map('sort')|list", "gd|sum(attribute='k', start=l)", "gd|sort(attribute='n')",
+        "gd|groupby('n')|list", "gq|map('list')|list", "gq|sum(start=l)", "gv|list", "gl|batch(1)|list", "gl|slice(2)|list",
+        "gl|unique|list", "gl|join(',')", "gn|map('join', '-')|list", "nest.data.rows|map('sort')|list", "nest.data.rows|sum(start=nest.data.by.k)",
+        "nest.data.by|dictsort", "nest.data.by.k|sort", "nest.data.rows|map('reverse')|map('list')|list", "gl|map('attr', 'append')|list",
         "ld|map(attribute='k')", "ld|map(attribute='k', default=l)", "ld|map('first')", "ll|map('sum', start=l)",
         "ld|sum(attribute='k', start=l)", "ll|sum(start=l)", "ql|sum(start=l)", "ld|sum('k', l)", "lb|sum(attribute='k', start=l)",
         "ld|sort(attribute='n')", "lb|sort(attribute='n')", "ld|groupby('n')", "ld|groupby('n', default=l)",
@@ -365,7 +399,7 @@ def judge_filter_case(ctx, envs, case):
     expr, form, mode = case["expr"], case["form"], case["mode"]
     src = "{{ %s }}" % expr if form == "print" else "{{ (%s)|list|string|length }}" % expr
     case["template"] = src
-    data = filter_values()
+    data = with_generators(filter_values())
     before = canon(data)
     outcome = render_case(envs, mode, src, data)
     case["outcome"] = outcome
